@@ -17,7 +17,7 @@ try:
     for c in res["ref"]["trace"]: print("   ", c[:3])
     it = c47.Interner()
     pts = [c47.render_point(pt, it) for pt in res["points"] if "error" not in pt]
-    for j,pt in enumerate(res["points"]): print(j, pt["k"], pt["mid"], pt["call"], pt["f"], pt["out2"], pt["detail2"], c47.point_code(res, pt, c47.members_tree(case["srv2"]["members"])) if c47.recoverable(case) else "-")
+    for j,pt in enumerate(res["points"]): print({k:v for k,v in pt["st"].items() if k in ("tf","dl")}, j, pt["k"], pt["mid"], pt["call"], pt["f"], pt["out2"], pt["detail2"], c47.point_code(res, pt, c47.members_tree(case["srv2"]["members"])) if c47.recoverable(case) else "-")
     term = c47.render_case(res, pts, it)
     v = f"{c47.IMPORTS}\nImport ListNotations.\n{c47.PREAMBLE}\nDefinition c : case := {term}.\nEval vm_compute in (run_case c).\nEval vm_compute in (map step_tag (fst (sync (c_fixed c) (c_force c) (c_srv c) (c_tar c) (c_chunk c) (c_s0 c))), point_codes c, final_code c).\n"
     open("/verif/chk.scratch/c47/dbgcase_%d.v" % os.getpid() + "","w").write(v)
